@@ -20,7 +20,7 @@ CONSTANTS
  MaxBlockTxs = 1
  MaxReorgTxs = 0
  Standalone = FALSE
- DisconnectEvicts = FALSE
+ DisconnectEvicts = TRUE
  Script <- U_Script
  TxWeight <- U_TxWeight
  TxSigCost <- U_TxSigCost
